@@ -89,6 +89,32 @@ let () =
   let st = ref M.state0 in
   let dict = ref M.dict_empty in
   let snaps : (int, M.state) Hashtbl.t = Hashtbl.create 64 in
+  let wcfg = ref M.w_cfg0 in
+  let hb h = bytes_of_string (string_of_hex h) in
+  let wdump (c : M.cfg) =
+    let b = Buffer.create 256 in
+    Buffer.add_string b "lists";
+    List.iter (fun (k, l) -> Buffer.add_string b (" " ^ hex_of_bytes k ^ ":" ^ String.concat "," (List.map hex_of_bytes l))) c.M.lists;
+    Buffer.add_string b " | queues";
+    List.iter (fun (k, q) -> Buffer.add_string b (" " ^ hex_of_bytes k ^ ":" ^ String.concat "," (List.map n_to_string q))) c.M.queues;
+    Buffer.add_string b " | tokens";
+    List.iter (fun i -> Buffer.add_string b (" " ^ n_to_string i)) c.M.tokens;
+    Buffer.add_string b " | pcs";
+    List.iter (fun (i, p) ->
+      let ks l = String.concat "," (List.map hex_of_bytes l) in
+      Buffer.add_string b (" " ^ n_to_string i ^ "=" ^ (match p with
+        | M.Idle -> "idle"
+        | M.Registered l -> "registered:" ^ ks l
+        | M.Waiting l -> "waiting:" ^ ks l
+        | M.Woken l -> "woken:" ^ ks l
+        | M.Finished None -> "finished:nil"
+        | M.Finished (Some (k, x)) -> "finished:" ^ hex_of_bytes k ^ "/" ^ hex_of_bytes x))) c.M.pcs;
+    Buffer.contents b in
+  let wdo (l : M.label) =
+    match M.w_step !wcfg l with
+    | Some c -> wcfg := c; print_string ("OK " ^ wdump c ^ "\n")
+    | None -> print_string "DISABLED\n" in
+  let cidn s = n_of_int (int_of_string s) in
   (try
     while true do
       let line = input_line stdin in
@@ -135,6 +161,16 @@ let () =
        | ["DSCAN"; c; n] ->
            let (c', items) = M.dict_scan !dict (n_of_decimal c) (nat_of_int (int_of_string n)) in
            print_string (n_to_string c' ^ String.concat "" (List.map (fun it -> " " ^ hex_of_bytes it.M.it_key) items) ^ "\n")
+       | ["W"; "RESET"] -> wcfg := M.w_cfg0; print_string "OK\n"
+       | "W" :: "PUSH" :: k :: xs -> wdo (M.LPush (hb k, List.map hb xs))
+       | ["W"; "STEAL"; k] -> wdo (M.LSteal (hb k))
+       | "W" :: "START" :: i :: ks -> wdo (M.LStart (cidn i, List.map hb ks))
+       | ["W"; "SECOND"; i] -> wdo (M.LSecond (cidn i))
+       | ["W"; "WAKE"; i] -> wdo (M.LWake (cidn i))
+       | ["W"; "RETRY"; i] -> wdo (M.LRetry (cidn i))
+       | ["W"; "GIVEUP"; i] -> wdo (M.LGiveUp (cidn i))
+       | ["W"; "RESETC"; i] -> wdo (M.LReset (cidn i))
+       | ["W"; "DUMP"] -> print_string ("OK " ^ wdump !wcfg ^ "\n")
        | ["QUIT"] -> raise End_of_file
        | _ -> print_string "ERR bad line\n");
       flush stdout
